@@ -93,6 +93,7 @@ fn c05_cfg(metric: Metric, dim: usize, n_vecs: usize, depth: usize) -> TxnCfg {
     TxnCfg {
         indexes: vec![(a, metric, dim), (b, metric, dim)],
         menu,
+        prefix: Vec::new(),
         transactions: true,
         max_depth: depth,
         obs: TxnObs { store: true, ..Default::default() },
@@ -148,6 +149,7 @@ fn c06_cfg(metric: Metric, dim: usize, depth: usize, rejected: bool) -> TxnCfg {
     TxnCfg {
         indexes: vec![(0, metric, dim), (1, metric, dim)],
         menu,
+        prefix: Vec::new(),
         transactions: true,
         max_depth: depth,
         obs: TxnObs { staleness: true, rejected, ..Default::default() },
@@ -227,6 +229,7 @@ fn c07_cfg(a: u16, b: u16, third: Option<u16>, depth: usize) -> TxnCfg {
     TxnCfg {
         indexes,
         menu,
+        prefix: Vec::new(),
         transactions: false,
         max_depth: depth,
         obs: TxnObs { isolation: true, ..Default::default() },
@@ -261,5 +264,68 @@ pub fn c07(tier: Tier) -> i32 {
     }
     run_txn(&mut report, "C07", runs);
     report.cov("oracle", "after every action on one index (add, append, delete, clear, two build configurations, metric change; ids 0, 1, u32::MAX-1, u32::MAX) in every interleaving of operations on the index pair / triple: the raw sub-dump of every other index is byte-identical to before, and no key outside the declared indexes exists");
+    report.finish()
+}
+
+// ------------------------------------------------------------------------------------------
+
+fn c18_cfg(src: Metric, dim: usize, targets: &[Metric], depth: usize) -> TxnCfg {
+    // the index under test sits between two populated, built neighbours
+    let (lo, mid, hi) = (6u16, 7u16, 8u16);
+    let vecs = plain_vectors(dim);
+    let prefix = vec![
+        Action::Add { index: lo, id: 0, vec: vecs[0].clone() },
+        Action::Add { index: lo, id: u32::MAX, vec: vecs[1].clone() },
+        Action::Add { index: lo, id: 3, vec: vecs[2].clone() },
+        build(lo, Some(2), Some(1), None),
+        Action::Add { index: hi, id: 0, vec: vecs[1].clone() },
+        Action::Add { index: hi, id: 1, vec: vecs[2].clone() },
+        Action::Add { index: hi, id: u32::MAX, vec: vecs[0].clone() },
+        build(hi, Some(2), Some(1), None),
+        Action::Commit,
+    ];
+    let mut menu = Vec::new();
+    for (k, id) in [0u32, 1, 2, u32::MAX].iter().enumerate() {
+        menu.push(Action::Add { index: mid, id: *id, vec: vecs[k % 3].clone() });
+    }
+    menu.push(Action::Add { index: mid, id: 1, vec: vecs[0].clone() });
+    menu.push(Action::Del { index: mid, id: 0 });
+    menu.push(build(mid, None, None, None));
+    menu.push(build(mid, Some(2), Some(1), None));
+    for t in targets {
+        menu.push(Action::ChangeMetric { index: mid, to: *t });
+    }
+    TxnCfg {
+        indexes: vec![(lo, Metric::Cosine, dim), (mid, src, dim), (hi, Metric::BqEuclidean, dim)],
+        menu,
+        prefix,
+        transactions: false,
+        max_depth: depth,
+        obs: TxnObs { store: true, staleness: true, isolation: true, forest: true, metric_change: true, ..Default::default() },
+        probe_ids: vec![0, 1, 2, u32::MAX],
+        label: format!("{}-d{dim}-depth{depth}", src.short()),
+    }
+}
+
+pub fn c18(tier: Tier) -> i32 {
+    let mut report = Report::new("C18", tier, "model_checking");
+    report.assume("LMDB/heed; roaring; rayon");
+    let mut runs = Vec::new();
+    match tier {
+        Tier::Quick => {
+            for m in M7 {
+                runs.push((c18_cfg(m, 3, &M7, 5), caps(6)));
+            }
+        }
+        Tier::Thorough => {
+            for m in M7 {
+                runs.push((c18_cfg(m, 3, &M7, 6), caps(200)));
+                runs.push((c18_cfg(m, 65, &M7, 5), caps(100)));
+                runs.push((c18_cfg(m, 1, &M7, 5), caps(100)));
+            }
+        }
+    }
+    run_txn(&mut report, "C18", runs);
+    report.cov("oracle", "every history of adds, overwrites, deletes, two build configurations and prepare_changing_distance to each of the 7 metrics (all 49 ordered pairs, chains included) on an index between two built neighbours: after the change the items and vectors equal the model as representable (API and raw leaf bytes), no tree or metadata key of the index remains, the index needs a build and no longer opens, the neighbours are byte-identical; same metric => dump unchanged; after the next build the structure oracle S and the exact-search oracle X hold under the new metric and opening under another metric fails");
     report.finish()
 }
